@@ -16,6 +16,8 @@ func init() {
 }
 
 var replayers = map[string]func(t *testing.T, path string){
+	"C06":         func(t *testing.T, p string) { core.Replay(t, propC06, p) },
+	"C07":         func(t *testing.T, p string) { core.Replay(t, propC07, p) },
 	"C01":         func(t *testing.T, p string) { core.Replay(t, propC01, p) },
 	"C02":         func(t *testing.T, p string) { core.Replay(t, propC02, p) },
 	"C03":         func(t *testing.T, p string) { core.Replay(t, propC03, p) },
